@@ -7,9 +7,6 @@ import Crusta.Proofs.EncAux
 
 namespace Crusta
 
-/-- the assignment function represented by a model vector (`Some(true)` = true) -/
-def asgOfModel (m : List (Option Bool)) : Asg := fun v => v ≥ 1 && (m.getD (v - 1) none == some true)
-
 theorem Aux.mem_decode (n : Nat) (m : List (Option Bool)) (a : Nat) :
     a ∈ Aux.decode n m ↔ (a < n ∧ asgOfModel m (Aux.x a) = true) := by
   unfold Aux.decode asgOfModel Aux.x
